@@ -57,3 +57,20 @@ class AbsItem:
 
     def get(self):
         raise NotImplementedError("external")
+
+
+class AbsVar:
+    """Any SECS variable object as a container sees it: the abstract codec contract of C01.  Ghost fields: g_enc (the bytes
+    its encode() returns), g_from / g_to (where its last decode() started and ended)."""
+
+    def encode(self):
+        raise NotImplementedError("external")
+
+    def decode(self, data, start=0):
+        raise NotImplementedError("external")
+
+    def set(self, value):
+        raise NotImplementedError("external")
+
+    def get(self):
+        raise NotImplementedError("external")
